@@ -408,7 +408,7 @@ def run_case(prop, name, hint, confkw, tier, src, props=None):
             out.inconclusive.append(f'unsupported: {e}')
         except Exception as e:
             out.inconclusive.append('harness exception: ' + traceback.format_exc()[-600:])
-        if not any('solver unknown' in i for i in out.inconclusive):
+        if not any('unknown' in i for i in out.inconclusive):
             break
     if BOUND_DELTA:
         out.observations.append(f'bounded mode decided with container length bound reduced by {BOUND_DELTA} '
